@@ -149,7 +149,12 @@ def translate():
             d[k] = f'{v.value}%nat'
         req[nm] = d
     hr = find_def(tree, '_has_required_type_arguments', UNIT)
-    if not same(strip_doc(hr.body), parse_stmts(
+    hb = strip_doc(hr.body)
+    te = parse_stmts("if base == 'Tuple' and getattr(cls, '__args__', None) == ():\n    return True")
+    tuple_empty_ok = len(hb) > 2 and same([hb[2]], te)
+    if tuple_empty_ok:
+        hb = hb[:2] + hb[3:]
+    if not same(hb, parse_stmts(
             'base: str = _get_name(cls=cls)\nnum_type_args = len(get_type_arguments(cls=cls))\n'
             'if base in NUM_OF_REQUIRED_TYPE_ARGS_EXACT:\n    return NUM_OF_REQUIRED_TYPE_ARGS_EXACT[base] == num_type_args\n'
             'elif base in NUM_OF_REQUIRED_TYPE_ARGS_MIN:\n    return NUM_OF_REQUIRED_TYPE_ARGS_MIN[base] <= num_type_args\nreturn True')):
@@ -171,6 +176,25 @@ def translate():
             and is_name(bare[0].body[0].exc.func, 'PedanticTypeCheckException') and not bare[0].orelse):
         bad('_is_instance: bare-builtin test does not raise PedanticTypeCheckException')
     bare_set = cls_set(bare[0].test.comparators[0], '_is_instance bare set')
+    bi = body.index(bare[0])
+    nt_new = parse_stmts(
+        'if _is_type_new_type(type_):\n'
+        '    if isinstance(type_.__supertype__, type) and type_.__supertype__ is not Any:\n        return isinstance(obj, type_.__supertype__)\n'
+        '    return _is_instance(obj=obj, type_=type_.__supertype__, type_vars=type_vars, context=context)')
+    nt_old = parse_stmts('if _is_type_new_type(type_):\n    return isinstance(obj, type_.__supertype__)')
+    named = parse_stmts(
+        "field_types = getattr(type_, '_field_types', None) or getattr(type_, '__annotations__', None)\n"
+        "if hasattr(obj, '_asdict') and isinstance(type_, type) and field_types:\n"
+        "    if not isinstance(obj, type_) or not obj._asdict().keys() == field_types.keys():\n        return False\n"
+        "    return all([_is_instance(obj=obj._asdict()[k], type_=v, type_vars=type_vars, context=context) for k, v in field_types.items()])")
+    if bi < 3 or not same(body[bi - 2:bi], named):
+        bad('_is_instance: the named-tuple branch before the bare-builtin test changed (values with _asdict are outside the model: exact shape required)')
+    if same([body[bi - 3]], nt_new):
+        newtype_recurses = True
+    elif same([body[bi - 3]], nt_old):
+        newtype_recurses = False
+    else:
+        bad('_is_instance: NewType branch changed')
     # the bare test must come before the GenericAlias conversion and the final isinstance
     tail = body[body.index(bare[0]) + 1:]
     if not same(tail, parse_stmts(
@@ -421,7 +445,7 @@ def translate():
     out += fun_table('req_min', req['NUM_OF_REQUIRED_TYPE_ARGS_MIN'])
     out += f'  bare_builtins := {coq_list(bare_set)};\n  conv_bare := {coq_list(conv_bare)};\n'
     out += f'  conv_origins := {coq_list(["T" + c for c in conv])};\n'
-    out += f'  conv_type_keeps_classes := {coq_bool(keeps)};\n  sig_catches := {coq_list(sig_catches)};\n'
+    out += f'  newtype_recurses := {coq_bool(newtype_recurses)};\n  tuple_empty_ok := {coq_bool(tuple_empty_ok)};\n  conv_type_keeps_classes := {coq_bool(keeps)};\n  sig_catches := {coq_list(sig_catches)};\n'
     out += f'  handlers := {coq_list(handlers)};\n  mismatch_raises := {mismatch};\n'
     out += f'  it_quant := {it_q};\n  it_index := {it_index}%nat;\n  iv_quant := {iv_q};\n  iv_conj := {iv_conj};\n  mp_via_items := true;\n'
     out += f'  tu_ell_quant := {ell_q};\n  tu_ell_index := {ell_index}%nat;\n  tu_len_check := {coq_bool(len_check)};\n  tu_zip_quant := {zip_q};\n'
